@@ -63,11 +63,12 @@ BASES = {
         }, "entries": ["f0"]},
     # a struct type defined in one module and used by functions of others (the using module imports the defining one)
     "sharedstruct": {
-        "globals": "", "types": {"f2": "struct ST { int fld; float w; int[2] arr; float3 v; }"},
+        # SI appears in no function signature: it is a field type of ST, and the importing modules name it themselves
+        "globals": "", "types": {"f2": "struct SI { int k; }\nstruct ST { int fld; float w; int[2] arr; float3 v; SI inner; }"},
         "funcs": {
-            "f0": ("export function f0(int a) -> int { ST t = f2(a); t.fld = t.fld + 1; return f3(t) + f1(a); }", ["f2", "f3", "f1"]),
+            "f0": ("export function f0(int a) -> int { ST t = f2(a); t.fld = t.fld + 1; SI q; q.k = t.inner.k + 1; return f3(t) + f1(a) + q.k * 1000; }", ["f2", "f3", "f1"]),
             "f1": ("function f1(int a) -> int { return a - 1; }", []),
-            "f2": ("function f2(int a) -> ST { ST s; s.fld = a; s.w = 0.5; s.arr[1] = a + 2; s.v.y = 1.5; return s; }", []),
+            "f2": ("function f2(int a) -> ST { ST s; s.fld = a; s.w = 0.5; s.arr[1] = a + 2; s.v.y = 1.5; s.inner.k = a + 5; return s; }", []),
             "f3": ("function f3(ST s) -> int { return s.fld * 2 + s.arr[1] * 100; }", ["f2"]),
         }, "entries": ["f0"]},
     "tworoots": {
@@ -262,7 +263,8 @@ def w_partition(job):
                         for perm in itertools.permutations(list(roots) + list(extra)):
                             adds.append(perm)
                 by_set = {}
-                for perm in adds:
+                kept = {}        # module objects loaded once and handed to every second history again: linking does not consume them
+                for hidx, perm in enumerate(adds):
                     stats["link_histories"] += 1
                     stats["AddModule_calls"] += len(perm)
                     stats["linker_states"] += len(perm) + 1
@@ -272,8 +274,13 @@ def w_partition(job):
                         with pool.quiet():
                             lk = LinearIR.Linker(loader=loader)
                             for mi in perm:
-                                # a module object as loaded from its file (fresh per history)
-                                lk.AddModule(LinearIR.FilesystemModuleLoader().Load(nm(mi)))
+                                # a module object as loaded from its file: fresh in even histories, the kept one in odd histories
+                                if hidx % 2:
+                                    if mi not in kept:
+                                        kept[mi] = LinearIR.FilesystemModuleLoader().Load(nm(mi))
+                                    lk.AddModule(kept[mi])
+                                else:
+                                    lk.AddModule(LinearIR.FilesystemModuleLoader().Load(nm(mi)))
                             program = lk.Link()
                         outcome = ("linked", program)
                     except BaseException as e:
